@@ -33,8 +33,8 @@ CLAIMED = {
   "text": ("Proof on the simple-parameter fragment, partial: `encodeGen` is what client/parameter.gotmpl writes, `bindGenAny` (C03) what server/parameter.gotmpl binds; split_join proves SplitByFormat inverts "
            "JoinByFormat on items that are not empty, carry no surrounding blanks and do not contain the separator; roundtrip_scalar / roundtrip_array / roundtrip_multi: for EVERY parameter spec and EVERY "
            "spec-satisfying representable value the handler receives exactly the value given (multi needs no representability hypothesis); roundtrip_absent; unrepresentable_differs shows the hypothesis is "
-           "necessary; string_codec / bool_codec by computation, the integer decimal codec is an explicit hypothesis of the theorems (boundary values by decide, every integer sent is checked by the "
-           "correspondence). dispatch_*: the client's response switch as decision logic (declared 2xx -> typed result, declared non-2xx -> typed error, default non-2xx -> typed default error, default 2xx "
+           "necessary; string_codec / bool_codec by computation and int_codec for EVERY integer in the range of the declared width (Params/Decimal.lean: the digits of Nat.toDigits fold back to the number, "
+           "signs and the range test of strconv.ParseInt included). dispatch_*: the client's response switch as decision logic (declared 2xx -> typed result, declared non-2xx -> typed error, default non-2xx -> typed default error, default 2xx "
            "-> APIError wrapping the default, no default -> APIError with the code); dispatch_total. Tie: a generated client calls the generated server of the same spec in one process; struct given vs "
            "struct seen, scripted typed responder vs client result/error, and both vs the Lean functions on the same inputs."),
   "note": ("Trusted: Lean kernel + audited axioms; genlab pair lab (generated client + server + glue main); encoding/json projections. Modelled rather than verified: the templates (transcribed), "
@@ -162,5 +162,18 @@ CLAIMED = {
            "outputs compared with the compiled model line by line."),
   "note": DIFF_NOTE,
  },
+ "C18": {
+  "technique": "Lean 4 proof (what the model templates print for a constraint vs what the scanner's taggers read: round trip for all count lines and all integer bounds in the plain range, loss theorem outside it) + spec -> generate model -> codescan round trip",
+  "text": ("Proof for the validation lines, partial: `Doc.emit` prints a constraint as propertyValidationDocString does (numbers through the %v rule of fmt: plain decimal iff the decimal exponent is in [-4, 6), "
+           "else scientific), `Doc.parse` transcribes the taggers (keyword table, number sub-expression of the regexps, ParseFloat/ParseInt). count_lines_rt: Max/Min Length, Max/Min Items, Unique, Required, "
+           "Read Only round-trip for EVERY value; integer_bound_rt: Maximum / Minimum (inclusive or exclusive) round-trip for EVERY integer bound printed without exponent; sci_dropped: for EVERY decimal "
+           "outside the plain range the printed text carries an exponent the scanner's expression does not admit, so the bound is lost (known finding, proved); multipleOf_preserved over the regenerated fact "
+           "that the scanner applies the value (the defect was repaired); fraction_examples are evaluated examples. Tie: definition sets + a definition of boundary-valued bounds are generated as models and "
+           "scanned back with codescan; every definition is compared after normalisation, every boundary value also with parse(emit c)."),
+  "note": ("Trusted: Lean kernel + audited axioms; genlab generation; codescan.Run in-process; the normaliser (drops descriptions, x-go-*, default formats; inlines generator-introduced types). Modelled rather "
+           "than verified: the regexp engine (recognisers transcribed by hand), fmt's float formatting (modelled for decimal values, checked on the boundary table), type/format mapping through Go types, "
+           "enum and pattern text (exercised only)."),
+ },
 }
-NOT_YET = {}
+NOT_YET = {
+}
